@@ -11,7 +11,8 @@ and iterates over *that list object*; `add` replaces the attribute by a new list
 the new one, so an iterator obtained earlier still walks the old list `[BufferingDestination]`;
 `buffered_messages` is a reference to the buffer's own list, so the re-send loop sees appends that
 happen while it is running, but not later ones.  Messages are ids; fewer than 1000 are buffered
-(no trimming).  The nested `self.send(message)` of the re-send loop is one step.
+(no trimming).  The nested `self.send(message)` of the re-send loop is interleaved line by line
+as well.
 Mathlib-free, executable. -/
 namespace Eliot.Conc.Handover
 
@@ -34,9 +35,12 @@ inductive LPc where
 deriving DecidableEq, Repr
 
 inductive APc where
-  | straight                       -- executing the statement list
-  | resendIter (j : Nat)           -- at `for message in buffered_messages:` (next index j)
-  | resendSend (m : Nat) (j : Nat) -- at `self.send(message)`
+  | straight                                     -- executing the statement list
+  | resendIter (j : Nat)                         -- at `for message in buffered_messages:` (next index j)
+  | resendAtSend (m : Nat) (j : Nat)             -- at `self.send(message)`
+  | resendEntered (m : Nat) (j : Nat)            -- inside the nested send, before its `for` line
+  | resendNext (m : Nat) (j : Nat) (onNew : Bool) (idx : Nat)             -- nested `for` line again
+  | resendCall (m : Nat) (j : Nat) (onNew : Bool) (idx : Nat) (d : Dest)  -- nested `dest(message)`
 deriving DecidableEq, Repr
 
 structure State where
@@ -75,6 +79,12 @@ def loggerNext (s : State) (i m : Nat) (onNew : Bool) (idx : Nat) : State :=
   | some d => { s with logPc := upd s.logPc i (.call m onNew (idx + 1) d) }
   | none => { s with logPc := upd s.logPc i .idle }
 
+/-- `next` of the iterator of the adder's nested send -/
+def adderNext (s : State) (m j : Nat) (onNew : Bool) (idx : Nat) : State :=
+  match (listOf s onNew)[idx]? with
+  | some d => { s with addPc := .resendCall m j onNew (idx + 1) d }
+  | none => { s with addPc := .resendIter j }
+
 def step (s : State) : Tid → Option State
   | .logger i =>
     match s.logPc i with
@@ -104,11 +114,12 @@ def step (s : State) : Tid → Option State
         | .unknown => none
     | .resendIter j =>
       match s.buf[j]? with
-      | some m => some { s with addPc := .resendSend m (j + 1) }
+      | some m => some { s with addPc := .resendAtSend m (j + 1) }
       | none => some { s with addPc := .straight }
-    | .resendSend m j =>
-      -- nested send: to every destination of the list object current *now*
-      some { (listOf s s.cur).foldl (fun st d => deliver st d m) s with addPc := .resendIter j }
+    | .resendAtSend m j => some { s with addPc := .resendEntered m j }
+    | .resendEntered m j => some (adderNext s m j s.cur 0)     -- nested `for` line: evaluates self._destinations now
+    | .resendNext m j onNew idx => some (adderNext s m j onNew idx)
+    | .resendCall m j onNew idx d => some { deliver s d m with addPc := .resendNext m j onNew idx }
 
 def sys : Sys State Tid := ⟨step⟩
 def run (s : State) (sched : List Tid) : State := sys.run s sched
